@@ -69,8 +69,8 @@ theorem vs_arith (w : Nat) (v v' : VS) (b : SI) (hv : ∀ p, p ∈ v.regions →
     (x y : Nat) (hx : v.memAt region x) (hy : b.mem y) :
     (v.mapRegions (fun s => pure (s.add b)) = .ok v' → v'.memAt region ((x + y) % 2 ^ w)) ∧
     (v.mapRegions (fun s => pure (s.sub b)) = .ok v' → v'.memAt region ((x + 2 ^ w - y) % 2 ^ w)) ∧
-    (b.Aligned → v.mapRegions (fun s => s.mod b) = .ok v' → y ≠ 0 → v'.memAt region (x % y)) := by
-  refine ⟨fun h => ?_, fun h => ?_, fun alb h hy0 => ?_⟩
+    (v.mapRegions (fun s => s.mod b) = .ok v' → y ≠ 0 → v'.memAt region (x % y)) := by
+  refine ⟨fun h => ?_, fun h => ?_, fun h hy0 => ?_⟩
   · refine vs_opSI v v' _ (fun x => (x + y) % 2 ^ w) (NE w) True ?_ hv h region x hx trivial
     intro s r hs hr x hsx _
     have : r = s.add b := by cases hr; rfl
@@ -85,6 +85,6 @@ theorem vs_arith (w : Nat) (v v' : VS) (b : SI) (hv : ∀ p, p ∈ v.regions →
     rwa [hs.bits] at this
   · refine vs_opSI v v' _ (fun x => x % y) (NE w) True ?_ hv h region x hx trivial
     intro s r hs hr x hsx _
-    exact (mod_sound w s b r ⟨hs.wf, hs.bits⟩ ⟨hb.wf, hb.bits⟩ hs.nb hb.nb alb hr).2 x y hsx hy hy0
+    exact (mod_sound_full w s b r ⟨hs.wf, hs.bits⟩ ⟨hb.wf, hb.bits⟩ hs.nb hb.nb hr).2 x y hsx hy hy0
 
 end Claripy.VSA
